@@ -1,6 +1,7 @@
 import GramModel.Lemmas.ArmsTie
 import GramModel.Lemmas.DeBruijn
 import GramModel.Lemmas.Named
+import GramModel.Lemmas.StoreTransparent
 
 /-!
 # C11 — substitution and index shifting are capture-avoiding
@@ -585,3 +586,170 @@ example : gshift Generated.shiftArms Generated.shiftLeaves 0 2
     (.lam 1 false (.var 2 0) (.letg (.cons 3 .int (.var 2 3) (.cons 4 .int (.var 3 1) .nil)) (.bin .quot (.var 2 3) (.var 4 0))))
     = some (.lam 1 false (.var 2 2) (.letg (.cons 3 .int (.var 2 5) (.cons 4 .int (.var 3 1) .nil)) (.bin .quot (.var 2 5) (.var 4 0)))) := by
   decide
+
+
+/-! ## Transparency of the store layer on fully solved terms
+
+The functions the implementation runs when solved unification holes are around (`sshiftS`, `ushiftS`, `openS` of
+`Store.lean`, `freeAtS` of `Print.lean`: the `Unifier(Some(..), k)` arms of `signed_shift`, `open`, `free_variables`,
+which read the hole as `unsigned_shift(solution, 0, k)` and go on) compute, on a term all of whose reachable cells
+are solved, literally what the pure functions of this file compute on the zonked term — at every fuel at which they
+answer — and leave the state as it was.  So every law above transfers. -/
+
+open StoreTransparent in
+/-- `FullySolved σ t`: `zonk` answers with a hole-free term; `fullySolvedB` is an executable checker for it. -/
+def C11_store_fully_solved_checker_stmt : Prop :=
+  ∀ (fuel : Nat) (σ : List (Option Tm)) (t : Tm), fullySolvedB fuel σ t = true → FullySolved σ t
+theorem C11_store_fully_solved_checker : C11_store_fully_solved_checker_stmt :=
+  fun _ _ _ h => StoreTransparent.fullySolvedB_sound h
+
+/-- `sshiftS` on a fully solved term: the state is unchanged (nothing allocated, nothing written), the answer is
+the pure shift of the zonked term — `none` exactly when the pure shift fails — and a returned term is hole-free, so
+it is its own zonk.  With fuel `> n + size z` (`n` = a fuel at which `zonk` answers) `sshiftS` does answer. -/
+def C11_store_shift_transparent_stmt : Prop :=
+  ∀ (n c : Nat) (amt : Int) (t z : Tm) (s : St),
+    zonk n s.store t = some z → z.holeFree = true →
+    (∀ (f : Nat) (o : Option Tm) (s' : St), sshiftS f c amt t s = .ok o s' →
+      s' = s ∧ o = sshift c amt z ∧ (o = none ↔ sshift c amt z = none) ∧
+      ∀ t', o = some t' → t'.holeFree = true ∧ sshift c amt z = some t' ∧
+        ∃ m, zonk m s.store t' = some t') ∧
+    (∀ f, n + z.size < f → sshiftS f c amt t s = .ok (sshift c amt z) s)
+theorem C11_store_shift_transparent : C11_store_shift_transparent_stmt := by
+  intro n c amt t z s hz hf
+  refine ⟨fun f o s' h => ?_, fun f hfu => StoreTransparent.sshiftS_total hz hf hfu⟩
+  obtain ⟨rfl, rfl⟩ := StoreTransparent.sshiftS_transparent ⟨n, hz⟩ hf h
+  refine ⟨rfl, rfl, Iff.rfl, fun t' e => ?_⟩
+  have hf' : t'.holeFree = true := by rw [StoreTransparent.sshift_hf z c amt t' e]; exact hf
+  exact ⟨hf', e, UnifySound.Zk_holeFree t' hf'⟩
+
+/-- `unsigned_shift` on a fully solved term is the pure unsigned shift of the zonked term (and never panics at
+`unwrap`: with enough fuel it answers). -/
+def C11_store_ushift_transparent_stmt : Prop :=
+  ∀ (n c a : Nat) (t z : Tm) (s : St),
+    zonk n s.store t = some z → z.holeFree = true →
+    (∀ (f : Nat) (r : Tm) (s' : St), ushiftS f c a t s = .ok r s' → s' = s ∧ r = ushift c a z) ∧
+    (∀ f, n + z.size < f → ushiftS f c a t s = .ok (ushift c a z) s)
+theorem C11_store_ushift_transparent : C11_store_ushift_transparent_stmt := by
+  intro n c a t z s hz hf
+  refine ⟨fun f r s' h => ?_, fun f hfu => StoreTransparent.ushiftS_total hz hf hfu⟩
+  obtain ⟨rfl, rfl⟩ := StoreTransparent.ushiftS_solved f c a t z s ⟨n, hz⟩ hf r s' h
+  exact ⟨rfl, rfl⟩
+
+/-- `openS` on fully solved `t` and `u` allocates no cell (the state is unchanged) and returns the pure opening of
+the zonked terms, a hole-free term. -/
+def C11_store_open_transparent_stmt : Prop :=
+  ∀ (f n m i sh : Nat) (t u zt zu r : Tm) (s s' : St),
+    zonk n s.store t = some zt → zt.holeFree = true →
+    zonk m s.store u = some zu → zu.holeFree = true →
+    openS f t i u sh s = .ok r s' →
+    s' = s ∧ r = openT zt i zu sh ∧ r.holeFree = true ∧ ∃ k, zonk k s.store r = some (openT zt i zu sh)
+theorem C11_store_open_transparent : C11_store_open_transparent_stmt := by
+  intro f n m i sh t u zt zu r s s' hz hf hzu hfu h
+  obtain ⟨rfl, rfl⟩ := StoreTransparent.openS_transparent ⟨n, hz⟩ hf ⟨m, hzu⟩ hfu h
+  have hr := WhnfLemmas.openT_holeFree zt i zu sh hf hfu
+  exact ⟨rfl, rfl, hr, UnifySound.Zk_holeFree _ hr⟩
+
+/-- The store-aware free-variable test of the printer (`free_variables(t, i, ..).contains(&0)`, `freeAtS`) on a
+fully solved term is the pure test on the zonked term; and `free_variables` as a whole (`freeVarsS`, the `Unifier`
+arm of `term.rs` included) returns the free variables of the zonked term, in the same order and multiplicity. -/
+def C11_store_fv_transparent_stmt : Prop :=
+  ∀ (n : Nat) (σ : List (Option Tm)) (t z : Tm),
+    zonk n σ t = some z → z.holeFree = true →
+    (∀ (f i : Nat) (b : Bool), freeAtS f σ t i = some b → b = freeAt z i) ∧
+    (∀ (f c : Nat) (l : List Nat), StoreTransparent.freeVarsS f σ t c = some l → l = freeVars z c)
+theorem C11_store_fv_transparent : C11_store_fv_transparent_stmt := by
+  intro n σ t z hz hf
+  exact ⟨fun f i b h => StoreTransparent.freeAtS_transparent ⟨n, hz⟩ hf h,
+    fun f c l h => StoreTransparent.freeVarsS_transparent ⟨n, hz⟩ hf h⟩
+
+/-- The C11 laws transfer to the store layer on fully solved terms, modulo `zonk`: shifting by zero returns the
+zonked term; two unsigned shifts compose additively (and agree with the single shift by the sum); a downward shift
+undoes an upward one; opening at a variable that (by the store-aware test) does not occur is shifting down by one. -/
+def C11_store_laws_stmt : Prop :=
+  ∀ (n : Nat) (t z : Tm) (s : St), zonk n s.store t = some z → z.holeFree = true →
+    (∀ f c o s', sshiftS f c 0 t s = .ok o s' → o = some z ∧ s' = s) ∧
+    (∀ f g h c a b t1 s1 t2 s2 t3 s3, ushiftS f c b t s = .ok t1 s1 → ushiftS g c a t1 s1 = .ok t2 s2 →
+      ushiftS h c (a + b) t s = .ok t3 s3 → t2 = ushift c (a + b) z ∧ t3 = t2 ∧ s2 = s ∧ s3 = s) ∧
+    (∀ f g c a t1 s1 o s2, ushiftS f c a t s = .ok t1 s1 → sshiftS g c (-(a : Int)) t1 s1 = .ok o s2 →
+      o = some z ∧ s2 = s) ∧
+    (∀ f g h m i sh u zu r s1 o s2, zonk m s.store u = some zu → zu.holeFree = true →
+      freeAtS f s.store t i = some false → openS g t i u sh s = .ok r s1 →
+      sshiftS h i (-1) t s = .ok o s2 → o = some r ∧ s1 = s ∧ s2 = s)
+theorem C11_store_laws : C11_store_laws_stmt := by
+  intro n t z s hz hf
+  have hZ : UnifySound.Zk s.store t z := ⟨n, hz⟩
+  refine ⟨?_, ?_, ?_, ?_⟩
+  · intro f c o s' h
+    obtain ⟨rfl, rfl⟩ := StoreTransparent.sshiftS_transparent hZ hf h
+    exact ⟨C11_shift_zero z c, rfl⟩
+  · intro f g h c a b t1 s1 t2 s2 t3 s3 h1 h2 h3
+    obtain ⟨rfl, rfl⟩ := StoreTransparent.ushiftS_solved f c b t z s hZ hf _ _ h1
+    have hf1 : (ushift c b z).holeFree = true := by rw [WhnfLemmas.ushift_holeFree]; exact hf
+    obtain ⟨rfl, rfl⟩ := StoreTransparent.ushiftS_solved g c a _ _ s1
+      (UnifySound.Zk_holeFree _ hf1) hf1 _ _ h2
+    obtain ⟨rfl, rfl⟩ := StoreTransparent.ushiftS_solved h c (a + b) t z s2 hZ hf _ _ h3
+    exact ⟨ushift_ushift z c a b, (ushift_ushift z c a b).symm, rfl, rfl⟩
+  · intro f g c a t1 s1 o s2 h1 h2
+    obtain ⟨rfl, rfl⟩ := StoreTransparent.ushiftS_solved f c a t z s hZ hf _ _ h1
+    have hf1 : (ushift c a z).holeFree = true := by rw [WhnfLemmas.ushift_holeFree]; exact hf
+    obtain ⟨rfl, rfl⟩ := StoreTransparent.sshiftS_transparent (UnifySound.Zk_holeFree _ hf1) hf1 h2
+    exact ⟨sshift_neg_ushift z c a, rfl⟩
+  · intro f g h m i sh u zu r s1 o s2 hzu hfu hfree ho hs
+    have hb := StoreTransparent.freeAtS_transparent hZ hf hfree
+    obtain ⟨rfl, rfl⟩ := StoreTransparent.openS_transparent hZ hf ⟨m, hzu⟩ hfu ho
+    obtain ⟨rfl, rfl⟩ := StoreTransparent.sshiftS_transparent hZ hf hs
+    exact ⟨C11_open_not_free z i zu sh hf hb.symm, rfl, rfl⟩
+
+/-- (pending — stated, not proved) With enough fuel `openS` and `freeAtS` do answer on fully solved terms (the
+counterpart of the second half of `C11_store_shift_transparent`, which is proved for `sshiftS` / `ushiftS`). -/
+def C11_store_open_fv_total_stmt : Prop :=
+  ∀ (n m i sh : Nat) (t u zt zu : Tm) (s : St),
+    zonk n s.store t = some zt → zt.holeFree = true →
+    zonk m s.store u = some zu → zu.holeFree = true →
+    ∃ f0, ∀ f, f0 ≤ f →
+      openS f t i u sh s = .ok (openT zt i zu sh) s ∧ freeAtS f s.store t i = some (freeAt zt i)
+
+/-! ### Non-vacuity: a store with a chain of solved cells with non-zero shifts (cell 0 mentions cell 1 shifted by
+one; cell 2 is unsolved and unreachable), a term under a binder mentioning cell 0 shifted by two -/
+
+namespace C11StoreExample
+open StoreTransparent
+
+def σ0 : List (Option Tm) :=
+  [ some (.app (.var 7 0) (.hole 1 1)),
+    some (.lam 8 false .int (.bin .sum (.var 8 0) (.var 9 2))),
+    none ]
+def b0 : Tm := .app (.hole 0 2) (.var 5 0)
+def t0 : Tm := .lam 5 false (.hole 1 0) b0
+def zu0 : Tm := .lam 8 false .int (.bin .sum (.var 8 0) (.var 9 5))
+def zb0 : Tm := .app (.app (.var 7 2) zu0) (.var 5 0)
+def z0 : Tm := .lam 5 false (.lam 8 false .int (.bin .sum (.var 8 0) (.var 9 2))) zb0
+
+example : zonk 12 σ0 t0 = some z0 ∧ z0.holeFree = true ∧ fullySolvedB 12 σ0 t0 = true := by decide
+-- upward shift under a cutoff: both sides evaluated
+example : runOut (sshiftS 20 1 2 t0 { store := σ0 }) = some (sshift 1 2 z0, σ0) ∧
+    sshift 1 2 z0 = some (.lam 5 false (.lam 8 false .int (.bin .sum (.var 8 0) (.var 9 4)))
+      (.app (.app (.var 7 4) (.lam 8 false .int (.bin .sum (.var 8 0) (.var 9 7)))) (.var 5 0))) := by decide
+-- a failing downward shift fails on both sides, a succeeding one succeeds on both
+example : runOut (sshiftS 20 1 (-1) t0 { store := σ0 }) = some (sshift 1 (-1) z0, σ0) ∧
+    sshift 1 (-1) z0 = none := by decide
+example : runOut (sshiftS 20 2 (-1) t0 { store := σ0 }) = some (sshift 2 (-1) z0, σ0) ∧
+    (sshift 2 (-1) z0).isSome = true := by decide
+-- opening the body at its bound variable with a solved hole as the argument
+example : zonk 12 σ0 b0 = some zb0 ∧ zonk 12 σ0 (.hole 1 3) = some zu0 ∧
+    runOut (openS 20 b0 0 (.hole 1 3) 0 { store := σ0 }) = some (openT zb0 0 zu0 0, σ0) ∧
+    openT zb0 0 zu0 0 =
+      .app (.app (.var 7 1) (.lam 8 false .int (.bin .sum (.var 8 0) (.var 9 4)))) zu0 := by decide
+-- the hypothesis is needed: an UNSOLVED hole met by `openS` allocates a cell (the store grows from 3 to 4)
+example : (runOut (openS 20 (.app (.hole 2 2) (.var 5 0)) 0 (.hole 1 3) 0 { store := σ0 })).map
+    (fun p => p.2.length) = some 4 := by decide
+-- free variables
+example : freeAtS 20 σ0 t0 1 = some (freeAt z0 1) ∧ freeAtS 20 σ0 t0 0 = some (freeAt z0 0) ∧
+    freeAt z0 1 = true ∧ freeAt z0 0 = false := by decide
+example : freeVarsS 20 σ0 t0 0 = some (freeVars z0 0) ∧ freeVars z0 0 = [1, 1, 3] := by decide
+-- the theorems instantiated on the example
+example : ∀ f o s', sshiftS f 1 2 t0 { store := σ0 } = .ok o s' → o = sshift 1 2 z0 :=
+  fun f o s' h => ((C11_store_shift_transparent 12 1 2 t0 z0 { store := σ0 } (by decide) (by decide)).1
+    f o s' h).2.1
+
+end C11StoreExample
